@@ -85,7 +85,7 @@ MODIFY = {
     "gas_phase": [(("component CO2(g)", "moles"), "0.00625")],
     "solid_solutions": [(("solid_solution CaSrCO3", "component Calcite", "moles"), "0.0075")],
     "kinetics": [(("component Quartz", "m"), "0.75")],
-    "reaction": [(("units",), "Mol")],
+    "reaction": [(("units",), "Mol"), (("reactant_list", "LiF"), "0.5")],      # the second one adds a reactant with elements no other entry holds
     "reaction_temperature": [(("temps", "#0"), "33 44")],
     "reaction_pressure": [(("pressures", "#0"), "7 9")],
 }
@@ -135,7 +135,7 @@ def modify_text(kind, n, path, value):
     for p in path[:-1]:
         lines.append("%s-%s" % (ind, p))
         ind += " "
-    if kind == "solution" and path[0] == "totals":
+    if (kind == "solution" and path[0] == "totals") or (kind == "reaction" and path[0] == "reactant_list"):
         lines.append("%s%s %s" % (ind, path[-1], value))
     elif path[-1].startswith("#"):
         lines[-1] = lines[-1] + " " + value
